@@ -22,7 +22,7 @@ from . import poolreg as R
 
 FUEL = 3_000_000
 
-POOL_KINDS = ["blobs", "duplicates", "constant_feature", "collinear", "grid", "uniform"]
+POOL_KINDS = ["blobs", "duplicates", "constant_feature", "collinear", "grid", "uniform", "separated"]
 
 
 # --------------------------------------------------------------------------
@@ -218,7 +218,8 @@ def gen_pool_scenario(rng: SimRng, key, mode, max_n=24):
     n = g.pick([2, 3, 4, 6, 8, 12, 16, max_n]) if not heavy else g.pick([3, 4, 6, 8, 10])
     d = g.pick([1, 2, 2, 3])
     kind = g.pick(POOL_KINDS)
-    X, yt = R.make_pool(g, n, d, e["task"], kind)
+    classes = [0, 1, 2] if (e["task"] == "clf" and not e["flags"].get("binary") and g.chance(0.3)) else [0, 1]
+    X, yt = R.make_pool(g, n, d, e["task"], kind, n_classes=len(classes))
     # initial labelling: from zero labels to a single unlabeled sample
     r = g.random()
     if r < 0.25:
@@ -234,7 +235,7 @@ def gen_pool_scenario(rng: SimRng, key, mode, max_n=24):
     okind = g.pick(["true", "true", "constant", "prefix_single", "random"])
     nr = g.np("oracle")
     if e["task"] == "clf":
-        per = {"true": yt, "constant": np.zeros(n), "prefix_single": yt, "random": nr.randint(0, 2, n).astype(float)}[okind]
+        per = {"true": yt, "constant": np.zeros(n), "prefix_single": yt, "random": nr.randint(0, len(classes), n).astype(float)}[okind]
     else:
         per = {"true": yt, "constant": np.full(n, 0.5), "prefix_single": yt, "random": np.round(nr.normal(0, 1, n), 4)}[okind]
     per = [float(v) for v in per]
@@ -249,7 +250,8 @@ def gen_pool_scenario(rng: SimRng, key, mode, max_n=24):
         "model": g.pick(e["models"]),
         "seed": g.randrange(0, 1000) if g.chance(0.8) else {"rs": g.randrange(0, 1000)},
         "model_seed": g.randrange(0, 50),
-        "classes": [0, 1],
+        "classes": classes,
+        "init_overrides": {"classes": classes} if len(classes) > 2 else None,
         "X": X.tolist(),
         "y0": y0,
         "pool_kind": kind,
